@@ -77,9 +77,9 @@ structure EpCfg where
 def denyName (cfg : Cfg) : String := if cfg.reject then "Reject" else "Drop"
 
 def conntrackRules (cfg : Cfg) (e : EpCfg) : List Netfilter.Rule :=
-  (if e.allowIsReturn then [{ clauses := [.ctState false "RELATED,ESTABLISHED"], action := .setMark cfg.markAccept }] else [])
-  ++ [{ clauses := [.ctState false "RELATED,ESTABLISHED"], action := if e.allowIsReturn then .ret else .accept }]
-  ++ (if e.disableCtInvalid then [] else [{ clauses := [.ctState false "INVALID"], action := C08.denyAction cfg }])
+  (if e.allowIsReturn then [{ clauses := [.ctState false ["RELATED", "ESTABLISHED"]], action := .setMark cfg.markAccept }] else [])
+  ++ [{ clauses := [.ctState false ["RELATED", "ESTABLISHED"]], action := if e.allowIsReturn then .ret else .accept }]
+  ++ (if e.disableCtInvalid then [] else [{ clauses := [.ctState false ["INVALID"]], action := C08.denyAction cfg }])
 
 def nflogGrp (e : EpCfg) : Nat := if e.dir = 'I' then 1 else 2
 
